@@ -16,8 +16,16 @@ Hypothesis H_ttl : c05_insert_ttl = 0%Z.
 (* apply2.store hands rec.isNew on unchanged, for every kind of record *)
 Hypothesis H_kinds : c05_store_put_kinds = [].
 
-Lemma batch_new_is_new (it : item) : batch_new it = it_new it.
-Proof. unfold batch_new, store_as_update. rewrite H_kinds. cbn. apply andb_true_r. Qed.
+Lemma batch_new_is_new (it : item) : stale_new it = false -> batch_new it = it_new it.
+Proof.
+  intros S. unfold batch_new, store_as_update. rewrite S, H_kinds. cbn. rewrite orb_false_r. apply andb_true_r.
+Qed.
+
+Lemma batch_new_of_new (it : item) : it_new it = true -> batch_new it = true.
+Proof. intros E. unfold batch_new, store_as_update. rewrite E, H_kinds. reflexivity. Qed.
+
+Lemma stale_new_off (it : item) : c05_update_inherits_isnew = false -> stale_new it = false.
+Proof. intros E. unfold stale_new. rewrite E. reflexivity. Qed.
 
 Definition key (it : item) : bytes * bytes := (it_pk it, it_cc it).
 
@@ -294,9 +302,13 @@ Ltac split_run Run :=
   end.
 
 Theorem step_link trust now (st st' : store) (s : step) :
+  clean_step s = true ->
   check_step stamp veqb trust now st s = Some st' -> satisfies_step stamp veqb trust s = true.
 Proof.
-  unfold check_step. destruct (run_step trust now st s) as [[[st1 r] cs]|] eqn:Run; [|discriminate].
+  intros Hclean. assert (Hcl : forall sl, In sl (s_slots s) -> stale_new (sl_it sl) = false).
+  { intros sl Hin. unfold clean_step in Hclean. rewrite forallb_forall in Hclean.
+    apply negb_true_iff. apply Hclean. exact Hin. }
+  clear Hclean. unfold check_step. destruct (run_step trust now st s) as [[[st1 r] cs]|] eqn:Run; [|discriminate].
   destruct (forallb _ (s_slots s) && res_eqb (s_res s) r && list_eqb (call_eqb veqb) (s_calls s) cs) eqn:Chk; [|discriminate].
   intros _. apply andb_true_iff in Chk. destruct Chk as [Chk _].
   apply andb_true_iff in Chk. destruct Chk as [Hobs Hres].
@@ -332,7 +344,7 @@ Proof.
     + change (@nil item) with (map sl_it (@nil slot)) in Its.
       destruct (s_slots s); [|discriminate]. rewrite <- Eb. reflexivity.
     + rewrite NP in *. rewrite <- Its in *. rewrite <- Eb. apply engine_judge.
-      * intros sl _. unfold rec_cond. rewrite batch_new_is_new. apply Tab.
+      * intros sl Hin. unfold rec_cond. rewrite (batch_new_is_new _ (Hcl sl Hin)). apply Tab.
       * exact Ho.
   - (* ApplyRecords of the re-applier *)
     split_run Run.
@@ -342,7 +354,7 @@ Proof.
     destruct (map sl_it (s_slots s)) as [|i0 r0] eqn:Its.
     + destruct (s_slots s); [|discriminate]. rewrite <- Eb. reflexivity.
     + rewrite NP in *. rewrite <- Its in *. rewrite <- Eb. apply engine_judge.
-      * intros sl _. unfold rec_cond. rewrite batch_new_is_new. apply Tab.
+      * intros sl Hin. unfold rec_cond. rewrite (batch_new_is_new _ (Hcl sl Hin)). apply Tab.
       * exact Ho.
   - (* PutWLog of the re-applier *)
     destruct (map sl_it (s_slots s)) as [|it [|? ?]] eqn:Its; try discriminate Run. split_run Run.
@@ -352,12 +364,20 @@ Proof.
     + exact Ho.
 Qed.
 
-Theorem link_proved (t : gtrace V) : gagrees stamp veqb t = true -> gsatisfies stamp veqb t = true.
+Theorem link_proved (t : gtrace V) :
+  gclean t = true -> gagrees stamp veqb t = true -> gsatisfies stamp veqb t = true.
 Proof.
-  unfold gagrees, gsatisfies. generalize (@nil (bytes * smap (row V))) as st. generalize 0%Z as now.
-  induction (t_steps t) as [|s r IH]; intros now st H; [reflexivity|].
-  cbn in H |- *. destruct (check_step stamp veqb (t_trust t) now st s) as [st'|] eqn:C; [|discriminate].
-  rewrite (step_link _ _ _ _ _ C). cbn. eapply IH. exact H.
+  unfold gagrees, gsatisfies, gclean. generalize (@nil (bytes * smap (row V))) as st. generalize 0%Z as now.
+  induction (t_steps t) as [|s r IH]; intros now st Hc H; [reflexivity|].
+  cbn in H, Hc |- *. apply andb_true_iff in Hc. destruct Hc as [Hc1 Hc2].
+  destruct (check_step stamp veqb (t_trust t) now st s) as [st'|] eqn:C; [|discriminate].
+  rewrite (step_link _ _ _ _ _ Hc1 C). cbn. eapply IH; [exact Hc2|exact H].
+Qed.
+
+Lemma gclean_off (t : gtrace V) : c05_update_inherits_isnew = false -> gclean t = true.
+Proof.
+  intros E. unfold gclean, clean_step. apply forallb_forall. intros s _. apply forallb_forall. intros sl _.
+  rewrite (stale_new_off _ E). reflexivity.
 Qed.
 
 (* ---- the clauses of the statement, about the writers themselves ---- *)
@@ -446,7 +466,7 @@ Proof.
   intros L Hin Hn G. unfold run_recs. rewrite L. cbn [negb]. rewrite rec_code_apply0.
   destruct items as [|h r]; [destruct Hin|]. change (1 <? 1) with false. cbn iota.
   apply (write_violation _ now (h :: r) st it Hin);
-    [unfold rec_cond; rewrite batch_new_is_new, Hn; reflexivity | eapply found_some; eauto].
+    [unfold rec_cond; rewrite (batch_new_of_new _ Hn); reflexivity | eapply found_some; eauto].
 Qed.
 
 (* ... and the stored row is intact bit for bit, whatever else the event writes, unless the same
@@ -458,7 +478,7 @@ Theorem existing_entry_intact_proved now (st : store) (items : list item) pk cc 
 Proof.
   intros G Hall. unfold run_recs. destruct (negb (loads_ok now st items)); [reflexivity|].
   rewrite rec_code_apply0. destruct items as [|h r]; [reflexivity|]. change (1 <? 1) with false. cbn iota.
-  apply write_keeps_guarded; [exact G|]. intros it Hin Hk. unfold rec_cond. rewrite batch_new_is_new, (Hall it Hin Hk). reflexivity.
+  apply write_keeps_guarded; [exact G|]. intros it Hin Hk. unfold rec_cond. rewrite (batch_new_of_new _ (Hall it Hin Hk)). reflexivity.
 Qed.
 
 (* every level and re-apply: when no guarded row aims at an existing record (in particular: an
@@ -466,26 +486,28 @@ Qed.
 Theorem apply_succeeds_proved k trust now (st : store) (items : list item) :
   k = KApply \/ k = KReapplyRecs -> trust <= 2 ->
   loads_ok now st items = true -> NoDup (map key items) ->
+  (forall it, In it items -> stale_new it = false) ->
   (forall it, In it items -> protected trust k (it_new it) = true -> found now st it = false) ->
   snd (run_recs (rec_code k trust) now st items) = ROk /\
   forall it, In it items -> get now (fst (run_recs (rec_code k trust) now st items)) (it_pk it) (it_cc it) = Some (it_val it).
 Proof.
-  intros K T L ND Hfree. unfold run_recs. rewrite L. cbn [negb].
+  intros K T L ND Hclean Hfree. unfold run_recs. rewrite L. cbn [negb].
   destruct items as [|h r]; [split; [reflexivity|intros it []]|].
   assert (Tb : (trust <=? 2) = true) by (apply N.leb_le; exact T).
   destruct (rec_code_table k trust Tb) as [NP Tab]; [destruct K as [-> | ->]; exact I|].
   rewrite NP. apply write_all_ok; [exact ND|].
-  intros it Hin C. apply Hfree; [exact Hin|]. rewrite <- Tab. unfold rec_cond in C. rewrite batch_new_is_new in C. exact C.
+  intros it Hin C. apply Hfree; [exact Hin|]. rewrite <- Tab. unfold rec_cond in C. rewrite (batch_new_is_new _ (Hclean it Hin)) in C. exact C.
 Qed.
 
 Corollary updates_always_succeed_proved k trust now (st : store) (items : list item) :
   k = KApply \/ k = KReapplyRecs -> trust <= 2 ->
   loads_ok now st items = true -> NoDup (map key items) ->
+  (forall it, In it items -> stale_new it = false) ->
   (forall it, In it items -> it_new it = false) ->
   snd (run_recs (rec_code k trust) now st items) = ROk /\
   forall it, In it items -> get now (fst (run_recs (rec_code k trust) now st items)) (it_pk it) (it_cc it) = Some (it_val it).
 Proof.
-  intros K T L ND Hupd. apply apply_succeeds_proved; auto.
+  intros K T L ND Hclean Hupd. apply apply_succeeds_proved; auto.
   intros it Hin P. rewrite (Hupd it Hin) in P. destruct K as [-> | ->]; cbn in P; [|discriminate].
   rewrite andb_false_r in P. discriminate.
 Qed.
@@ -516,4 +538,38 @@ Theorem apply_missing_update_proved code now (st : store) (items : list item) :
   loads_ok now st items = false -> run_recs code now st items = (st, RNotFound).
 Proof. intros L. unfold run_recs. rewrite L. reflexivity. Qed.
 
+(* with newUpdateRec resetting the flag the restriction to "clean" rows is void *)
+Corollary updates_always_succeed_full_proved k trust now (st : store) (items : list item) :
+  c05_update_inherits_isnew = false ->
+  k = KApply \/ k = KReapplyRecs -> trust <= 2 ->
+  loads_ok now st items = true -> NoDup (map key items) ->
+  (forall it, In it items -> it_new it = false) ->
+  snd (run_recs (rec_code k trust) now st items) = ROk /\
+  forall it, In it items -> get now (fst (run_recs (rec_code k trust) now st items)) (it_pk it) (it_cc it) = Some (it_val it).
+Proof.
+  intros E K T L ND Hupd. apply updates_always_succeed_proved; try assumption; intros it _; apply stale_new_off; exact E.
+Qed.
+
+Corollary link_full_proved (t : gtrace V) :
+  c05_update_inherits_isnew = false \/ gclean t = true ->
+  gagrees stamp veqb t = true -> gsatisfies stamp veqb t = true.
+Proof. intros [E | C]; apply link_proved; [apply gclean_off; exact E | exact C]. Qed.
+
 End Engine.
+
+(* While ICUD.Update inherits the isNew flag of the record object it is given, "updates of existing
+   records succeed" is false at level 0 for an update built from such an object (finding F-A). *)
+Lemma updates_succeed_full_refuted_proved :
+  c05_update_inherits_isnew = true ->
+  exists (now : Z) (st : store N) (items : list (item N)),
+    loads_ok now st items = true /\ NoDup (map key items) /\
+    (forall it, In it items -> it_new it = false /\ found now st it = true) /\
+    snd (run_recs (rec_code KApply 0) now st items) = RViolation.
+Proof.
+  intros H. unfold c05_update_inherits_isnew in H.
+  first
+    [ discriminate H
+    | exists 0%Z, (put [] [1] [2] 7), [mkItem [1] [2] 1 false true false 8];
+      split; [reflexivity|]; split; [repeat constructor; intros []|];
+      split; [intros it [<-|[]]; split; reflexivity | vm_compute; reflexivity] ].
+Qed.
